@@ -506,7 +506,7 @@ fn distinct_time_case() -> impl Strategy<Value = JobCase> {
 				f.gap = f.gap.max(10);
 			}
 			JobCase {
-				sim: SimSpec { async_api: (children.len() + spawn_fail.len() + signal_fail.len()) % 3 == 1, hook_delay: [0u8, 3, 0, 20][(children.len() + 2 * spawn_fail.len() + kill_fail.len()) % 4], children, spawn_fail, kill_fail, signal_fail, wait_fail: vec![], kill_lag_ms: 0 },
+				sim: SimSpec { async_api: (children.len() + spawn_fail.len() + signal_fail.len()) % 3 == 1, hook_delay: [0u8, 3, 0, 20][(children.len() + 2 * spawn_fail.len() + kill_fail.len()) % 4], children, spawn_fail, kill_fail, signal_fail, wait_fail: vec![], kill_lag_ms: 0, kill_esrch: false },
 				steps,
 				track: false,
 				sched,
